@@ -451,6 +451,97 @@ Section BuildProofs.
     apply build_defs_total. now apply H.
   Qed.
 
+  (* ---- every host key of a built table compiles as a glob (addRoute checks a new host since
+          /repo c9fb527; no command creates a key otherwise) ---- *)
+  Definition keys_ok (t : table) : Prop := Forall (fun k => glob_ok k = true) (map fst t).
+
+  Lemma keys_ok_incl t t' : incl (map fst t') (map fst t) -> keys_ok t -> keys_ok t'.
+  Proof. unfold keys_ok. intros Hi H. apply Forall_forall. intros k Hk. rewrite Forall_forall in H. auto. Qed.
+
+  Lemma filter_all_fst skip t : map fst (filter_all skip t) = map fst t.
+  Proof. unfold filter_all. rewrite map_map. reflexivity. Qed.
+
+  Lemma sweep_fst_incl t : incl (map fst (sweep t)) (map fst t).
+  Proof.
+    unfold sweep. intros k Hk. apply in_map_iff in Hk. destruct Hk as ([k' rs] & <- & Hin).
+    apply filter_In in Hin. destruct Hin as [Hin _]. apply in_map_iff in Hin.
+    destruct Hin as ([k2 rs2] & Heq & Hin). inversion Heq; subst. cbn [fst].
+    apply in_map_iff. exists (k', rs2). split; [reflexivity|exact Hin].
+  Qed.
+
+  Lemma add_route_keys t d t' : keys_ok t -> add_route canon glob_ok t d = Ok t' -> keys_ok t'.
+  Proof.
+    intros Hk. unfold add_route. destruct (hostpath (d_src d)) as [host0 path].
+    destruct (d_src d); [discriminate|]. destruct (d_dst d); [discriminate|].
+    destruct (canon _); [|discriminate].
+    destruct (lookup (lower host0) t).
+    - destruct (find path l); [|destruct (glob_ok path); [|discriminate]];
+        intros H; inversion H; subst; unfold keys_ok; rewrite Proofs.TableCmd.upd_host_fst; exact Hk.
+    - destruct (glob_ok (lower host0)) eqn:Eh; [|discriminate].
+      destruct (glob_ok path); [|discriminate]. intros H; inversion H; subst.
+      unfold keys_ok. rewrite map_app. apply Forall_app. split; [exact Hk|].
+      cbn [map fst]. constructor; [exact Eh|constructor].
+  Qed.
+
+  Lemma del_route_keys t d t' : keys_ok t -> del_route canon t d = Ok t' -> keys_ok t'.
+  Proof.
+    intros Hk. unfold del_route.
+    assert (Hall : forall skip, keys_ok (sweep (filter_all skip t))).
+    { intros skip. eapply keys_ok_incl; [apply sweep_fst_incl|].
+      unfold keys_ok. now rewrite filter_all_fst. }
+    assert (Hone : forall h p skip, keys_ok (sweep (filter_one h p skip t))).
+    { intros h p skip. eapply keys_ok_incl; [apply sweep_fst_incl|].
+      unfold keys_ok, filter_one. now rewrite Proofs.TableCmd.upd_host_fst. }
+    destruct (d_tags d); [|intros H; inversion H; apply Hall].
+    destruct (d_src d), (d_dst d); try (intros H; inversion H; apply Hall).
+    - destruct (canon _); [|discriminate]. destruct (hostpath _). cbn zeta.
+      destruct (get_route _ _ _); intros H; inversion H; subst; [apply Hone|exact Hk].
+    - destruct (hostpath _). cbn zeta.
+      destruct (get_route _ _ _); intros H; inversion H; subst; [apply Hone|exact Hk].
+    - destruct (canon _); [|discriminate]. destruct (hostpath _). cbn zeta.
+      destruct (get_route _ _ _); intros H; inversion H; subst; [apply Hone|exact Hk].
+  Qed.
+
+  Lemma weigh_route_keys t d t' : keys_ok t -> weigh_route t d = Ok t' -> keys_ok t'.
+  Proof.
+    intros Hk. unfold weigh_route. destruct (hostpath _). cbn zeta. destruct (d_src d); [discriminate|].
+    destruct (get_route _ _ _); [|discriminate]. destruct (_ =? 0)%N; [discriminate|].
+    intros H; inversion H. unfold keys_ok. rewrite Proofs.TableCmd.upd_host_fst. exact Hk.
+  Qed.
+
+  Lemma apply_def_keys t d t' : keys_ok t -> apply_def canon glob_ok t d = Ok t' -> keys_ok t'.
+  Proof.
+    unfold apply_def. destruct (d_cmd d); eauto using add_route_keys, del_route_keys, weigh_route_keys.
+  Qed.
+
+  Lemma build_from_keys ds : forall t t', keys_ok t -> build_from t ds = Ok t' -> keys_ok t'.
+  Proof.
+    induction ds as [|d ds IH]; intros t t' Hk; cbn [TableSwap.build_from]; [intros H; inversion H; subst; exact Hk|].
+    destruct (build_step t d) as [t1| |] eqn:E; cbn [bind]; try discriminate.
+    apply IH. exact (apply_def_keys t d t1 Hk (build_step_ok t d t1 E)).
+  Qed.
+
+  Lemma sort_table_fst t : map fst (sort_table t) = map fst t.
+  Proof. unfold sort_table. rewrite map_map. reflexivity. Qed.
+
+  Lemma forget_fst bt : map fst (forget bt) = map fst bt.
+  Proof. unfold forget. rewrite map_map. reflexivity. Qed.
+
+  Definition bt_keys_ok (bt : btable) : Prop := Forall (fun k => glob_ok k = true) (map fst bt).
+
+  (** build_keys_ok: whatever the text, every host key of the table NewTable returns is a valid glob *)
+  Theorem build_keys_ok ds bt : build_defs ds = Ok bt -> bt_keys_ok bt.
+  Proof.
+    unfold TableSwap.build_defs. destruct (build_from [] ds) as [t| |] eqn:E; cbn [bind]; try discriminate.
+    intros Hr. pose proof (ring_table_forget _ _ Hr) as Hf.
+    assert (Hk : keys_ok t) by (apply (build_from_keys ds [] t); [apply Forall_nil|exact E]).
+    unfold bt_keys_ok. rewrite <- forget_fst, Hf, sort_table_fst. exact Hk.
+  Qed.
+  Theorem full_build_keys_ok text bt : full_build text = Ok bt -> bt_keys_ok bt.
+  Proof.
+    unfold TableSwap.full_build. destruct (parse pweight text); cbn [bind]; try discriminate. apply build_keys_ok.
+  Qed.
+
   (* the custom backend's builder: same commands, plus the invalid-command error *)
   Fixpoint known_defs (ds : list (option def)) : list def :=
     match ds with Some d :: ds' => d :: known_defs ds' | _ => [] end.
@@ -491,16 +582,21 @@ Section LookupProofs.
     apply (Hg k rs br Hk Hbr); [|exact He]. intros Ht. rewrite Ht in Hn. cbn in Hn. lia.
   Qed.
 
-  (** new_table_total_on_domain, lookup half: on a table whose rings are non-empty, a lookup can
-      only crash through a host key that is not a valid glob, and only when glob matching is on *)
-  Theorem lookup_full_total bt host tls uri m globoff total : bt_good bt ->
-    (globoff = true \/ F_C02_bad_host_glob hostglob_ok bt tls = false) ->
+  (** new_table_total_on_domain, lookup half: on a table whose rings are non-empty and whose host
+      keys all compile (what NewTable returns, [full_build_keys_ok]) no lookup crashes.  [Hstrip] is
+      the one fact about the glob library used: removing a literal ":80" / ":443" suffix from a
+      pattern that compiles leaves a pattern that compiles (matchingHosts compiles the normalised
+      key, addRoute the key as written). *)
+  Theorem lookup_full_total (glob_ok : str -> bool) bt host tls uri m globoff total : bt_good bt ->
+    (forall k tl, glob_ok k = true -> hostglob_ok (Lookup.normalize_host k tl) = true) ->
+    Forall (fun k => glob_ok k = true) (map fst bt) ->
     lookup_full hostglob_ok bt host tls uri m globoff total <> Panic.
   Proof.
-    intros Hg Hd. unfold lookup_full, F_C02_bad_host_glob in *.
+    intros Hg Hstrip Hk. unfold lookup_full.
     destruct (negb globoff && negb (forallb _ (map fst bt))) eqn:E.
-    - exfalso. apply andb_true_iff in E. destruct E as [E1 E2].
-      destruct Hd as [->|Hd]; [discriminate|congruence].
+    - exfalso. apply andb_true_iff in E. destruct E as [_ E2]. apply negb_true_iff in E2.
+      assert (forallb (fun k => hostglob_ok (Lookup.normalize_host k tls)) (map fst bt) = true); [|congruence].
+      apply forallb_forall. intros k Hin. rewrite Forall_forall in Hk. auto.
     - apply look_hosts_np. exact Hg.
   Qed.
 
@@ -510,6 +606,27 @@ Section LookupProofs.
     lookup_full hostglob_ok bt host tls uri m false total = Panic.
   Proof. unfold lookup_full, F_C02_bad_host_glob. intros ->. reflexivity. Qed.
 End LookupProofs.
+
+Theorem new_table_total_on_domain :
+  forall pweight canon glob_ok order text, perm_order order ->
+  (forall ds, parse pweight text = Ok ds -> Forall route_ok (reached canon glob_ok [] ds)) ->
+  full_build pweight canon glob_ok (ring_faithful order) text <> Panic
+  /\ forall bt, full_build pweight canon glob_ok (ring_faithful order) text = Ok bt ->
+     forall hostglob_ok host tls uri m globoff total,
+       (forall k tl, glob_ok k = true -> hostglob_ok (Lookup.normalize_host k tl) = true) ->
+       lookup_full hostglob_ok bt host tls uri m globoff total <> Panic.
+Proof.
+  intros pweight canon glob_ok order text Hord H.
+  destruct (full_build_total pweight canon glob_ok order Hord text H) as [Hnp Hg].
+  split; [exact Hnp|]. intros bt Hbt hostglob_ok host tls uri m globoff total Hstrip.
+  exact (lookup_full_total hostglob_ok glob_ok bt host tls uri m globoff total (Hg bt Hbt) Hstrip
+           (full_build_keys_ok pweight canon glob_ok order text bt Hbt)).
+Qed.
+
+Theorem custom_build_total_on_domain : forall canon glob_ok order ds t, perm_order order ->
+  Forall route_ok (reached canon glob_ok t (known_defs ds)) ->
+  custom_from canon glob_ok (ring_faithful order) t ds <> Panic.
+Proof. intros canon glob_ok order ds t Hord. exact (custom_from_np canon glob_ok order Hord ds t). Qed.
 
 (* ====================================================================================== *)
 (** * (b) the update loops                                                                  *)
@@ -596,15 +713,15 @@ Proof. unfold custom_step. destruct (cbuild ds); split; congruence. Qed.
 (* what the libraries answer on the witnesses: strconv.ParseFloat (exact values: "Inf" as 2^1024,
    which rounds to +Inf; 5e-324 = 2^-1074; 1e308 = 0x1.1ccf385ebc8a0p+1023), url.Parse and
    glob.Compile of the paths accept everything used here, glob.Compile of a host key fails on an
-   unterminated '[' *)
+   unterminated '[' (host or path) *)
 Definition pw_wit (s : str) : outcome wt :=
   if beq s (bs "Inf") then Ok (WP two52 972)
   else if beq s (bs "5e-324") then Ok (WP two52 (-1126))
   else if beq s (bs "1e308") then Ok (WP 5010420900022432 971)
   else pweight_dec s.
 Definition canon_wit (d : str) : option str := Some d.
-Definition glob_wit (p : str) : bool := true.
 Definition hostglob_wit (k : str) : bool := negb (existsb (N.eqb 91) k).
+Definition glob_wit (p : str) : bool := hostglob_wit p.      (* one library: glob.Compile *)
 Definition fb_wit : str -> outcome btable := full_build pw_wit canon_wit glob_wit (ring_faithful stable_order).
 Definition nl : str := [10%N].
 
@@ -633,17 +750,32 @@ Theorem weight_sum_overflow_crashes_lookup :
   end.
 Proof. vm_compute. split; reflexivity. Qed.
 
-(* F-C02-4: a host pattern that is no valid glob is accepted by NewTable (only the path is
-   compiled there); every lookup with glob matching enabled then reaches glob.MustCompile,
-   whatever the request; with glob matching disabled the table works *)
-Theorem bad_host_glob_crashes_lookup :
-  match fb_wit (bs "route add s [/ http://h/" ++ nl ++ bs "route add t x.com/ http://x/") with
+(* F-C02-4, fixed by /repo c9fb527.  Before: a host pattern that is no valid glob was accepted by
+   NewTable (only the path was compiled); every lookup with glob matching enabled then reached
+   glob.MustCompile, whatever the request; with glob matching disabled the table worked. *)
+Definition fb_wit_unrepaired : str -> outcome btable :=
+  full_build_unrepaired pw_wit canon_wit glob_wit (ring_faithful stable_order).
+Definition bad_host_text : str := bs "route add s [/ http://h/" ++ nl ++ bs "route add t x.com/ http://x/".
+Theorem bad_host_glob_crashes_lookup_unrepaired :
+  match fb_wit_unrepaired bad_host_text with
   | Ok bt => lookup_full hostglob_wit bt (bs "x.com") false (bs "/") Lookup.MPrefix false 0%N = Panic
              /\ lookup_full hostglob_wit bt (bs "x.com") false (bs "/") Lookup.MPrefix true 0%N
                 = Ok (Some (bs "x.com", bs "/", 0))
   | _ => False
   end.
 Proof. vm_compute. split; reflexivity. Qed.
+(* now: the command is an error (route: invalid host), so the text is rejected as a whole and the
+   update loop keeps the last good table *)
+Theorem bad_host_glob_rejected : fb_wit bad_host_text = Err e_invalid_host.
+Proof. vm_compute. reflexivity. Qed.
+Theorem bad_host_glob_keeps_last_good :
+  map (fun p => match p with
+                | Running w => Some (map fst (Watch.w_active w))
+                | Crashed => None end)
+      (wtrace fb_wit (Running (Watch.w_init btable []))
+         [Watch.Svc (bs "route add s h.com/ http://h/"); Watch.Man bad_host_text; Watch.Man (bs "route add t x.com/ http://x/")])
+  = [Some [bs "h.com"]; Some [bs "h.com"]; Some [bs "h.com"; bs "x.com"]].
+Proof. vm_compute. reflexivity. Qed.
 
 (* the update loop: a good table, then a text with a syntax error (kept out, table unchanged),
    then the crashing text: the process is gone, although a valid text follows *)
@@ -690,3 +822,48 @@ Proof.
   split; [exact H|].
   apply (full_build_total pw_wit canon_wit glob_wit stable_order stable_perm domain_text H).
 Qed.
+
+(* ====================================================================================== *)
+(** * the custom backend's decoder (fresh per poll since /repo 9bd16b3)                       *)
+(* ====================================================================================== *)
+Definition cb_wit : list (option def) -> outcome btable :=
+  custom_build canon_wit glob_wit (ring_faithful stable_order).
+Definition jadd (svc : str) (src : option str) (dst : str) : jdef :=
+  {| j_cmd := Some (Some CmdAdd); j_svc := Some svc; j_src := src; j_dst := Some dst;
+     j_w := None; j_tags := None; j_opts := None |}.
+
+(* a poll is decoded on its own: what was polled before cannot matter (there is no such argument),
+   and a first definition that is an add without "src" is rejected - the table stays *)
+Theorem custom_poll_missing_src_rejected canon glob_ok rb cell (j : jdef) js :
+  j_cmd j = Some (Some CmdAdd) -> j_src j = None ->
+  custom_poll (custom_build canon glob_ok rb) cell (j :: js) = Some cell.
+Proof.
+  intros Hc Hs. destruct j as [c sv sr ds w tg op]. cbn [j_cmd j_src] in Hc, Hs. subst c sr.
+  unfold custom_poll. apply custom_keeps_last_good with (k := e_invalid_prefix).
+  unfold custom_build, decode_fresh. cbn [map]. unfold to_def at 1, merge at 1.
+  cbn [j_cmd j_svc j_src j_dst j_w j_tags j_opts oget raw_zero w_cmd w_svc w_src w_dst w_w w_tags w_opts].
+  cbn [custom_from]. unfold build_step, apply_def. cbn [d_cmd].
+  unfold add_route. cbn [d_src]. destruct (hostpath []). reflexivity.
+Qed.
+
+(* F-C02-5, fixed by 9bd16b3.  Before: the poll was decoded into the previous poll's definitions; a
+   definition without "src" inherited the previous src and was installed under it, reported OK *)
+Theorem custom_carry_over_refuted :
+  let poll1 := [jadd (bs "svc-a") (Some (bs "a.test/")) (bs "http://10.0.0.1:80/")] in
+  let poll2 := [jadd (bs "svc-s") None (bs "http://10.0.0.2:80/")] in
+  (* unrepaired: a.test/ now routes to svc-s *)
+  (match custom_poll_unrepaired cb_wit ([], []) poll1 with
+   | Some st => match custom_poll_unrepaired cb_wit st poll2 with
+                | Some (bt, _) => map (fun hr => (fst hr, map (fun br : broute => map t_svc (r_targets (fst br))) (snd hr))) bt
+                                  = [(bs "a.test", [[bs "svc-s"]])]
+                | None => False
+                end
+   | None => False
+   end)
+  (* repaired: the second poll is rejected and the first poll's table stays *)
+  /\ (match custom_poll cb_wit [] poll1 with
+      | Some bt1 => custom_poll cb_wit bt1 poll2 = Some bt1
+                    /\ cb_wit (map to_def (decode_fresh poll2)) = Err e_invalid_prefix
+      | None => False
+      end).
+Proof. vm_compute. repeat split; reflexivity. Qed.
